@@ -86,6 +86,9 @@ type Model struct {
 	Trace func(Event)
 	// DynRule is DynOutermost unless a deliberately wrong strategy is wanted.
 	DynRule DynRule
+	// MaxSteps, when positive, bounds the number of schema applications of one
+	// Validate call; exceeding it is a DomainError (the case is not decided).
+	MaxSteps int
 
 	draft     Draft
 	root      *document
